@@ -123,8 +123,15 @@ def roundtrip(m, out, item, tag, bond_orders=False, need_bond_stereo=False, real
     out["evals"] += 1
     out["distinct"] += 1
     oc[tag] = oc.get(tag, 0) + 1
+    # (every other export asks for bond orders with a truthy value that is not the bool singleton: numpy.bool_, as the result of a
+    #  numpy comparison would be)
+    bo_arg = bond_orders
+    if bond_orders and out["evals"] % 2 == 0:
+        import numpy as np
+
+        bo_arg = np.bool_(True)
     try:
-        mol, _ = g._to_rdmol(generate_bond_orders=bond_orders)
+        mol, _ = g._to_rdmol(generate_bond_orders=bo_arg)
     except Exception as e:
         V("export-raised:" + type(e).__name__, f"_to_rdmol raised {e!r}")
         return
@@ -318,6 +325,17 @@ def run_item(item):
                         m = U.mk(SMG, atoms, bonds, bstereo=[("PlanarBond", RS.apply(t, q), 0)])
                         roundtrip(m, out, item, "ez" + ("/scattered-ids" if pool is POOL2 else ""), bond_orders=True,
                                   need_bond_stereo=True)
+        # an open-shell molecule keeps its isolated double bond: CH3-CH=CH-CH2-CH2(.) (the radical centre is not allylic), E and Z,
+        # with the radical carbon early and late in the atom order
+        for first in (False, True):
+            a = [(1, "C"), (2, "C"), (3, "H"), (4, "C"), (5, "H"), (6, "C"), (7, "H"), (8, "H"), (9, "H"), (10, "H"), (11, "H"), (12, "C"),
+                 (13, "H"), (14, "H")]
+            b = [(1, 2), (1, 3), (1, 4), (2, 5), (2, 6), (4, 7), (4, 8), (4, 9), (6, 10), (6, 11), (6, 12), (12, 13), (12, 14)]
+            if first:
+                a = a[11:] + a[:11]
+            for t in ((3, 4, 1, 2, 5, 6), (3, 4, 1, 2, 6, 5)):
+                m = U.mk(SMG, a, b, bstereo=[("PlanarBond", t, 0)])
+                roundtrip(m, out, item, "ez-radical", bond_orders=True, need_bond_stereo=True)
         # imines X(Y)C=N-Z with the nitrogen lone pair as placeholder, every spelling (placeholder at position 0/1/4/5)
         for (x, y) in itertools.combinations(("H", "F", "Cl", "C"), 2):
             for z in ("H", "F", "C"):
